@@ -1,6 +1,50 @@
 package props
 
+import (
+	"verif/internal/explore"
+	"verif/internal/report"
+	"verif/internal/run"
+)
+
 // Registry maps property ids to their checks.
 var Registry = map[string]func(tier string) int{
 	"C01": C01,
+	"C02": C02,
+	"C06": C06,
+	"C12": C12,
+	"C13": C13,
+	"C20": C20,
+}
+
+func C06(tier string) int {
+	return sweepCheck("C06", tier, []run.Kind{run.Completion, run.CompletionPrefill},
+		explore.CaseOpts{Prefixes: true, Edits: tier == "thorough", Seqs: tier == "thorough"}, c06Result,
+		report.FinishOpts{Level: "exploration",
+			Rule:         "E1 sweep, completion with prefill off/on at every rune-boundary cursor of every file (valid and broken); per candidate: edit in requested file, range well formed, starts at/before cursor, reaches cursor up to blanks, no tab-stop syntax in plain text, snippet stops consecutive and unique; list <= 100; non-trivial = non-empty candidate list",
+			Assumptions:  []string{"catalogue literal values and hook texts contain no '$' so any tab-stop syntax in NewText is the library's"},
+			BiteCounters: []string{"candidates"}}, nil)
+}
+
+func C12(tier string) int {
+	return sweepCheck("C12", tier, []run.Kind{run.Hover},
+		explore.CaseOpts{Prefixes: true, Edits: tier == "thorough", Seqs: tier == "thorough"}, c12Safety,
+		report.FinishOpts{Level: "exploration",
+			Rule:         "E1 sweep, hover at every rune-boundary cursor of every file: result is nil/error, or non-empty content with a well-formed range in the requested file containing the cursor; non-trivial = hover data returned",
+			BiteCounters: []string{"hovers"}}, nil)
+}
+
+func C13(tier string) int {
+	return sweepCheck("C13", tier, []run.Kind{run.SemTok},
+		explore.CaseOpts{Prefixes: true, Edits: true, Seqs: true}, c13Structural,
+		report.FinishOpts{Level: "exploration",
+			Rule:         "E1 sweep, semantic tokens of every file (valid and broken), with targets/origins collected: sorted by start, pairwise disjoint, non-empty, advertised types, ranges well formed; non-trivial = at least one token",
+			BiteCounters: []string{"tokens"}}, nil)
+}
+
+func C20(tier string) int {
+	return sweepCheck("C20", tier, []run.Kind{run.Signature},
+		explore.CaseOpts{Prefixes: true, Edits: true, Seqs: tier == "thorough"}, c20Safety,
+		report.FinishOpts{Level: "exploration",
+			Rule:         "E1 sweep, signature help at every cursor: a returned signature names a known function, lists fixed+variadic parameters and has a valid active index; non-trivial = signature returned",
+			BiteCounters: []string{"signatures"}}, nil)
 }
